@@ -48,7 +48,11 @@ theorem renderText_shape {o o' : PyObj} (h : o.shape = o'.shape) :
   | lenFmt pre post =>
     cases o.len with
     | ok n => exact Or.inr ⟨_, _, rfl, rfl⟩
-    | raises m => exact Or.inl ⟨m, rfl, rfl⟩
+    | raises m =>
+      simp only
+      split
+      · exact Or.inr ⟨_, _, rfl, rfl⟩
+      · exact Or.inl ⟨m, rfl, rfl⟩
   | safeStr => exact Or.inr ⟨_, _, rfl, rfl⟩
 
 theorem eraseT_addChild (p : Nat) (c : VarId) (t : List Entry) : eraseT (addChild p c t) = addChild p c (eraseT t) := by
@@ -255,8 +259,12 @@ theorem collectWatches_sim {H H' : Heap} (L : Limits) (hs : SameShape H H') (ws 
     · cases (processVariable H L c [] w.expr w.value).failed with
       | some m => exact ⟨rfl, ht, rfl, rfl⟩
       | none =>
-        have := ih (processVariable H L c [] w.expr w.value).cache hmerge
-        exact ⟨this.1, this.2.1, by simp [this.2.2.1], this.2.2.2⟩
+        simp only
+        split
+        · have := ih (processVariable H L c [] w.expr w.value).cache ht
+          exact ⟨this.1, this.2.1, by simp [this.2.2.1], this.2.2.2⟩
+        · have := ih (processVariable H L c [] w.expr w.value).cache hmerge
+          exact ⟨this.1, this.2.1, by simp [this.2.2.1], this.2.2.2⟩
     · cases (processVariable H L c [] w.expr w.value).failed with
       | some m =>
         have := ih (processVariable H L c [] w.expr w.value).cache ht
